@@ -16,13 +16,19 @@ EffOf(al, en, k) == IF al = <<2>> THEN k * 3600 * en ELSE k * 3600       \* whol
 DepsOf(i) == {<<>>} \cup {<<Dep(p, g, FALSE)>> : p \in 1..(i-1), g \in Gaps} \cup {<<Dep(p, 0, TRUE)>> : p \in 1..(i-1)}
 Deps3 == IF Quick THEN {<<>>, <<Dep(1, 0, FALSE)>>, <<Dep(2, 1800, FALSE)>>, <<Dep(1, 0, FALSE), Dep(2, 3600, FALSE)>>, <<Dep(2, 0, TRUE)>>}
          ELSE DepsOf(3) \cup {<<Dep(1, 0, FALSE), Dep(2, g, FALSE)>> : g \in Gaps}
-Pins == IF Quick THEN {-1} ELSE {-1, 36000, 122400}          \* none | Mon 10:00 | Tue 10:00
+Pins == IF Quick THEN {-1} ELSE {-1, 122400}                 \* none | Tue 10:00
 AllAllocs == {<<1>>, <<2>>, <<1, 2>>}
 \* one Cartesian product (lazy, no union of big sets: TLC's set union is quadratic in deep record comparisons)
 Codes == {1, 2} \X (IF Quick THEN {0} ELSE {0, 2}) \X Effs \X Effs \X (IF Quick THEN {1, 3} ELSE {1, 2, 3})
          \X {500, 600} \X {400, 500} \X AllAllocs \X (IF Quick THEN {<<1>>} ELSE {<<1>>, <<2>>}) \X AllAllocs
          \X DepsOf(2) \X Deps3 \X Pins
-ValidCode(c) == c[1] = 1 \/ (c[8] # <<1, 2>> /\ c[10] # <<1, 2>>)      \* a team needs equal efficiencies
+\* the full product has 933 120 codes (TLC enumerates sets of up to a million elements); the full slice keeps one in 24 of
+\* them, chosen by a sum over all coordinates so that every value of every coordinate occurs with every value of every other
+Spread(c) == c[2] + c[3] + 2 * c[4] + 3 * c[5] + c[6] \div 100 + c[7] \div 100 + Len(c[8]) + c[9][1] + 2 * Len(c[10])
+             + Len(c[11]) + 3 * Len(c[12]) + (IF c[13] < 0 THEN 0 ELSE 1)
+             + (IF c[11] # <<>> THEN c[11][1].gap \div 1800 ELSE 0) + (IF c[12] # <<>> THEN c[12][1].p + c[12][1].gap \div 1800 ELSE 0)
+ValidCode(c) == /\ c[1] = 1 \/ (c[8] # <<1, 2>> /\ c[10] # <<1, 2>>)      \* a team needs equal efficiencies
+                /\ Quick \/ Spread(c) % 24 = c[1] + 5
 Build(c) == LET en == c[1] IN
    Frame(<<Res1(c[2], en), Res2(en, 1)>>,
          <<Task(1, 0, EffOf(c[8], en, c[3]), c[6], c[8], <<>>, c[13]), Task(2, 0, EffOf(c[9], en, c[4]), 500, c[9], c[11], -1),
